@@ -159,7 +159,7 @@ func c20Bounds(c *Check) {
 			sort.Slice(ops, func(i, j int) bool {
 				return abs(lbrackCol(p, ops[i])-s.Col) < abs(lbrackCol(p, ops[j])-s.Col)
 			})
-			name := fi.Obj.Name()
+			name := refName(fi.Obj)
 			ord[name]++
 			key := fi.Pkg.Types.Name() + "." + name + ":" + strings.ToLower(strings.TrimPrefix(s.Kind, "Is")) + itoa(ord[name])
 			if len(ops) == 0 {
@@ -475,7 +475,7 @@ func c20Recursion(c *Check) {
 		return dfs(to)
 	}
 	for _, cs := range cyc {
-		key := cs.from.Obj.Name() + "→" + cs.to.Name()
+		key := refName(cs.from.Obj) + "→" + cs.to.Name()
 		bad := !bounded[cs.call] && onCycle(cs.from.Obj, cs.to)
 		c.Hold("R3", key, cs.call.Pos(), !bad, "recursion cycle without a bound: no call on the cycle through this edge descends structurally, is dominated by a depth guard or enters a function that tests its depth counter first: a self-referencing input recurses until the stack overflows")
 	}
@@ -700,7 +700,7 @@ func c20Loops(c *Check) {
 			}
 			n++
 			li++
-			key := fi.Obj.Name() + ":loop" + itoa(li)
+			key := refName(fi.Obj) + ":loop" + itoa(li)
 			class, msg := "", ""
 			switch {
 			case fs.Cond != nil && fs.Post != nil:
